@@ -267,8 +267,35 @@ pub fn gen_cuts(rng: &mut Rng, n: usize, allow_inner_empty: bool) -> Vec<usize> 
     cuts
 }
 
+/// Bundled data sets written by the Java implementation: the library's sequential
+/// decoder provides the lists, the file provides the bytes.
+pub fn run_data(max_n: usize, out: &mut impl Write) {
+    for name in ["cnr-2000", "cnr-2000-t"] {
+        let base = std::path::Path::new("/repo/data").join(name);
+        let (n, arcs, cf) = parse_properties::<BE>(base.with_extension("properties")).unwrap();
+        let seq = BvGraphSeq::with_basename(&base).endianness::<BE>().load().unwrap();
+        let take = if max_n == 0 { n } else { n.min(max_n) };
+        let mut g: Graph = Vec::with_capacity(take);
+        let mut it = seq.iter();
+        while g.len() < take {
+            let (_x, succ) = lender::Lender::next(&mut it).unwrap();
+            g.push(succ.into_iter().collect());
+        }
+        let bytes = std::fs::read(base.with_extension("graph")).unwrap();
+        let c = Conf { w: cf.compression_window, mr: cf.max_ref_count, l: cf.min_interval_length,
+            codes: [cf.outdegrees, cf.references, cf.blocks, cf.intervals, cf.residuals], le: false, zuck: false, chunk: 0 };
+        writeln!(out, "art id=data-{name} path=dataset {} n={} cuts=0,{} status=ok partial=1 glen={} pnodes={} parcs={} arcs={} total_nodes={} total_arcs={} g={} graph={}",
+            c.describe().replace("comp=greedy", "comp=any"), take, take, bytes.len() * 8, take, num_arcs(&g), num_arcs(&g), n, arcs,
+            fmt_lists(&g), hex(&bytes)).unwrap();
+        writeln!(out, "#impl id=data-{name} reload=ok").unwrap();
+    }
+}
+
 /// The generated stream of artefacts for the codec properties.
 pub fn run(seed: u64, count: usize, max_n: usize, mode: &str, out: &mut impl Write) {
+    if mode == "data" {
+        return run_data(max_n, out);
+    }
     let mut rng = Rng::new(seed);
     let dir = tempfile::Builder::new().prefix("wgverif-art").tempdir().unwrap();
     for i in 0..count {
